@@ -38,6 +38,8 @@ def main():
         print("ERROR: fact extraction failed; no verdict on %s" % args.prop)
         print(str(e))
         return 2
+    from tc.util import reset_caches
+    reset_caches()
     F = Facts(facts_path)
     if args.dump:
         b = F.real_body(args.dump) or F.bodies.get(args.dump)
